@@ -111,6 +111,15 @@ func (ex *Exec) evalModPart(part string, se *SpecEnv) (locs []modLoc) {
 		d, vn, l, ks, vs := ex.mapComps(mt)
 		return []modLoc{{comp: d, sort: ArraySort(SInt, ArraySort(ks, SBool))}, {comp: vn, sort: ArraySort(SInt, ArraySort(ks, vs))}, {comp: l, sort: ArraySort(SInt, ex.vc.IntSort())}}
 	}
+	if strings.HasPrefix(part, "closed(") && strings.HasSuffix(part, ")") {
+		// closed(ch): the closed-state of channel ch
+		e, err := ParseSpecExpr(part[7 : len(part)-1])
+		if err != nil {
+			panic(specErr{err.Error()})
+		}
+		v, _ := se.evalTerm(e)
+		return []modLoc{{comp: chanClosedComp, sort: aliveSort, idx: v}}
+	}
 	if strings.HasPrefix(part, "global ") {
 		name := strings.TrimSpace(part[7:])
 		obj, _ := se.pkg.Scope().Lookup(name).(*types.Var)
@@ -484,6 +493,10 @@ func (ex *Exec) applyContract(fr *frame, st *State, reach *Term, fn *ssa.Functio
 	pkg := ex.eng.typesPkg(fc.Pkg)
 	pre := st.clone()
 	se := &SpecEnv{ex: ex, pkg: pkg, names: map[string]specBinding{}, cur: pre, old: pre, reach: reach}
+	if len(fn.FreeVars) > 0 && len(ex.callFree) == len(fn.FreeVars) {
+		se.freeFn, se.free = fn, ex.callFree
+	}
+	ex.callFree = nil
 	for i, p := range fn.Params {
 		se.names[p.Name()] = specBinding{args[i], p.Type()}
 	}
@@ -560,7 +573,7 @@ func (ex *Exec) applyContract(fr *frame, st *State, reach *Term, fn *ssa.Functio
 			results = append(results, v)
 		}
 	}
-	post := &SpecEnv{ex: ex, pkg: pkg, names: se.names, cur: st, old: pre, reach: reach}
+	post := &SpecEnv{ex: ex, pkg: pkg, names: se.names, cur: st, old: pre, reach: reach, freeFn: se.freeFn, free: se.free}
 	bindResults(post, fn.Signature, results)
 	for _, e := range fc.Ensures {
 		if strings.Contains(e.Text, "$t") {
@@ -745,6 +758,12 @@ func (eng *Engine) VerifyFunc(fn *ssa.Function, fc *FuncContract) (res *FuncResu
 	for _, fv := range fn.FreeVars {
 		// verifying a closure body on its own: free variables are arbitrary cells
 		v := ex.freshValueOfType(st0, TTrue, "fv."+fv.Name(), fv.Type())
+		if t, ok := v.(*Term); ok && fn.Parent() != nil {
+			if _, isPtr := types.Unalias(fv.Type()).Underlying().(*types.Pointer); isPtr {
+				// the cell of a captured variable always exists
+				vc.Assume(TTrue, Not(Eq(t, IntLit(0))))
+			}
+		}
 		fr.free = append(fr.free, v)
 	}
 	entry := st0.clone()
